@@ -192,3 +192,28 @@ func Verif_C20_D2_CompactSymbolic() {
 	}
 	vnd.ObserveBytes("compact", cb)
 }
+
+// Verif_C20_D2_DotInstanceNames: instance names with '.' in them. Whatever
+// NewInstanceName accepts must survive formatting and parsing back.
+func Verif_C20_D2_DotInstanceNames() {
+	names := []string{"a.b", "..a", "...", ".a/b.", ".", "..", "a/./b", "a/../b", "./a", "a/.."}
+	instance := names[vnd.Choose(len(names))]
+	in, err := NewInstanceName(instance)
+	if err != nil {
+		// (no Cover: unreachable until the finding is repaired)
+		return
+	}
+	vnd.Cover("dot-name-accepted")
+	fn, err := in.GetDigestFunction(remoteexecution.DigestFunction_MD5, 0)
+	vnd.Assert(err == nil, "supported function rejected")
+	d, err := fn.NewDigest(verifC20Hash(32, nil), 42)
+	vnd.Assert(err == nil, "valid digest rejected")
+	comp := remoteexecution.Compressor_Value(vnd.Choose(2))
+	d2, c2, err := NewDigestFromByteStreamReadPath(d.GetByteStreamReadPath(comp))
+	vnd.Assert(err == nil, "read path of a digest with an accepted instance name is rejected")
+	vnd.Assert(d2 == d && c2 == comp, "read path does not round-trip for an accepted instance name containing '.' components")
+	u := uuid.UUID{1, 2, 3, 4, 5, 6, 7, 8, 9, 10, 11, 12, 13, 14, 15, 16}
+	d3, c3, err := NewDigestFromByteStreamWritePath(d.GetByteStreamWritePath(u, comp))
+	vnd.Assert(err == nil, "write path of a digest with an accepted instance name is rejected")
+	vnd.Assert(d3 == d && c3 == comp, "write path does not round-trip for an accepted instance name containing '.' components")
+}
